@@ -9,5 +9,6 @@ CONSTANTS
   BoundaryFixed = TRUE
 INVARIANT Inv
 INVARIANT InvRange
+INVARIANT LawsStatic
 CONSTRAINT EmitAll
 CHECK_DEADLOCK FALSE
